@@ -48,13 +48,23 @@ def check(ctx):
         ctx.inst('R1', fetch, label + '-failure-is-a-miss', ok, 'the %s must sit in a try whose first handler catches Exception and does not re-raise' % label)
     rets = [n for n in g.nodes if n.kind == 'return']
     ctx.need(len(rets) >= 1, 'fetch: no return')
-    rv = {norm(n.ast.value) for n in rets if n.ast.value is not None}
-    ctx.inst('R1', fetch, 'single-result', len(rv) == 1 and len(rets) == 1, 'fetch returns one result variable; returns %s' % sorted(rv))
+    def is_none(e):
+        return e is None or (isinstance(e, ast.Constant) and e.value is None)
+    rv = {norm(n.ast.value) for n in rets if not is_none(n.ast.value)}
+    ctx.inst('R1', fetch, 'single-result', len(rv) == 1 and all(is_none(n.ast.value) or isinstance(n.ast.value, ast.Name) for n in rets),
+             'fetch returns one result variable (or None); returns %s' % sorted(rv))
     res = sorted(rv)[0] if rv else 'cache_data'
-    asg = [s for s in walk_own(fetch.node) if isinstance(s, (ast.Assign, ast.AugAssign)) and any(norm(t) == res for t in (s.targets if isinstance(s, ast.Assign) else [s.target]))]
-    asg.sort(key=lambda s: s.lineno)
-    ok = len(asg) == 2 and isinstance(asg[0].value, ast.Constant) and asg[0].value.value is None and asg[1].value is loads[0][1]
-    ctx.inst('R1', fetch, 'result-only-from-decode', ok, 'the result is None unless the decode succeeded; assignments: %s' % [norm(s) for s in asg])
+    asg, ok = [], bool(rv)
+    for n in rets:
+        if is_none(n.ast.value) or not isinstance(n.ast.value, ast.Name):
+            continue
+        for d in g.reaching_defs(n, n.ast.value.id):
+            dv = g.def_value(d, n.ast.value.id)
+            asg.append(d.ast if d.ast is not None else None)
+            if not (dv is not None and (is_none(dv) or dv is loads[0][1])):
+                ok = False
+    ok = ok and any(isinstance(a, ast.Assign) and a.value is loads[0][1] for a in asg)
+    ctx.inst('R1', fetch, 'result-only-from-decode', ok, 'the result is None unless the decode succeeded; values reaching the return: %s' % [norm(s) if s is not None else '<unbound>' for s in asg])
     hk = [k for k in loads[0][1].keywords if k.arg == 'object_hook']
     ctx.inst('R1', fetch, 'decoder-hook', len(hk) == 1 and norm(hk[0].value) == 'self._decoder', 'elements are rebuilt by self._decoder')
 
@@ -312,19 +322,20 @@ def path_source(f, node, _seen=None):
 
 def encoder_keys(enc):
     keys, cond = {}, set()
+    pv = enc.params[-1] + '.'          # the element being encoded (self, obj) or a static (obj)
     for n in ast.walk(enc.node):
         if isinstance(n, ast.Dict):
             for k, v in zip(n.keys, n.values):
                 if isinstance(k, ast.Constant):
-                    keys[k.value] = norm(v)[len('obj.'):] if norm(v).startswith('obj.') else norm(v)
+                    keys[k.value] = norm(v)[len(pv):] if norm(v).startswith(pv) else norm(v)
     g = cfg_of(enc)
     for node in g.nodes:
         if node.kind == 'stmt' and isinstance(node.ast, ast.Assign) and isinstance(node.ast.targets[0], ast.Subscript) and \
                 isinstance(node.ast.targets[0].slice, ast.Constant):
             k = node.ast.targets[0].slice.value
             v = norm(node.ast.value)
-            keys[k] = v[len('obj.'):] if v.startswith('obj.') else v
-            if any('isinstance(obj, ParamTocElement)' == f[0] and f[1] for f in g.fact_keys_at(node)):
+            keys[k] = v[len(pv):] if v.startswith(pv) else v
+            if any('isinstance(%s, ParamTocElement)' % pv[:-1] == f[0] and f[1] for f in g.fact_keys_at(node)):
                 cond.add(k)
     return keys, cond
 
